@@ -4,9 +4,11 @@ import TrionModel.Lemmas.SimpStableDec
 # C08 (statement level, BYTES and DIAGNOSED-OR-NOT) — the order of definition does not change what is emitted
 
 Props/C08Asm.lean proves that a deferred statement re-run over the final table `t₂ ⊇ t₁` IS the fresh assembly over `t₂`
-— state, trees and all — under the syntactic side condition `plain` on the operand trees, because at TREE level the claim
-is false in general (`Simp.resumes_false`: the retry evaluates already evaluated sub-trees once more and `evaluate` is
-not idempotent: `0 - (r1 - r0) ↦ -(r1 - r0) ↦ r0 - r1`).
+— state, trees and all — under the syntactic side condition `plain` on the operand trees.  That condition was needed as
+long as `evaluate` was not idempotent (findings K4, K5: `-(−1 − r0) ↦ r0 − (−1)`, `0 − (l − r) ↦ −(l − r)`); after the two
+repairs it is (`Props/C08Full.lean`: `evaluate_idempotent`), and Props/C08Full.lean states everything below WITHOUT any
+condition on the operand trees.  The theorems of this file are the layer in between and remain as proved: they need no
+idempotence where the operand has to become a number, and isolate the exact condition elsewhere.
 
 This file states the property at the level it speaks about — does the statement assemble, and to which bytes — and
 removes `plain` wherever the operand has to become a NUMBER:
@@ -28,19 +30,16 @@ removes `plain` wherever the operand has to become a NUMBER:
 * `const_never_from_register` (the reason): an operand whose evaluation ends in a number contains no register, however
   often the evaluation was interrupted.
 
-FULL-STRENGTH STATEMENT (no guard at the `ImmReg / Address / AddrOffset` positions):
-    theorem stmt_outcome_order_independent_full (hs : Table.Sub t₁ t₂) (hn : Table.NoDef t₁)
-        (h1 : Front.build addr name args (frontEval t₁) true = .deferred c fs1) (i : Instr) :
-        (∃ fs2, Front.assemble fs1 (frontEval t₂) false = (fs2, .completed) ∧ fs2.instr = i) ↔
-          Front.build addr name args (frontEval t₂) true = .completed i
-  History (K4): on the code as it was, this was FALSE — `.addr 0x20000000; LDRB r2, [-(-1 - r0) * x]; .const x, 1;`
-  assembled (`42 78` = `LDRB r2, [r0, #1]`) while with `.const x, 1;` ABOVE the instruction the statement was refused
-  (`argument #3 for LDRB is out of range`): the `Negate` arm of `simplify_raw` rewrote `-(l - r)` to `r - l` WITHOUT
-  neutralizing the new node, so `r0 - (-1)` survived a step that hands its operand back unchanged (`* 1`, `/ 1`, `<< 0`,
-  `| 0`, …) on the fresh path, while the retry evaluated it once more to `r0 + 1`.  The model in this branch follows the
-  repair (`neutralize_raw(arg)?` after the swap); the witness now agrees in both orders (`order_independent_below/above`).
-  The guard is sufficient, not necessary (`exTower` below): `evaluate` is still not idempotent at TREE level
-  (`Simp.resumes_false`: `0 - (l - r) ↦ -(l - r)` by `neutralize_raw`, which a second pass turns into `r - l`).
+FULL-STRENGTH STATEMENT (no guard at the `ImmReg / Address / AddrOffset` positions): proved as
+`Asm.stmt_outcome_order_independent` in Props/C08Full.lean (the guard holds for every tree: `leftStableArg_all`).
+  History.  K4, on the code as it was: `.addr 0x20000000; LDRB r2, [-(-1 - r0) * x]; .const x, 1;` assembled (`42 78` =
+  `LDRB r2, [r0, #1]`) while with `.const x, 1;` ABOVE the instruction the statement was refused: the `Negate` arm of
+  `simplify_raw` rewrote `-(l - r)` to `r - l` WITHOUT neutralizing the new node, so `r0 - (-1)` survived a step that hands
+  its operand back unchanged (`* 1`, `/ 1`, `<< 0`, `| 0`, …) on the fresh path while the retry evaluated it once more to
+  `r0 + 1`.  K5, after that repair: `LDR r2, [(0 - ((0 - r0) - r1)) * x]` — `neutralize_raw` turned `0 - (-r0 - r1)` into
+  `-(-r0 - r1)`, which the fresh path kept (refused) and the retry re-evaluated to `r1 + r0` (`0a 58`).  The model follows
+  both repairs (`neutralize_raw` swaps `-(l - r)` and `0 - (l - r)` to `r - l` before its passes); both witnesses now agree
+  in both orders (`order_independent_below/above`, `order_independent_below5/above5`).
 
 `NoDef t₁` (no `.global/.import`-deferred entry in the table of the first attempt) is inherited from Props/C08Asm.lean.
 -/
